@@ -81,8 +81,13 @@ CLAIMED = {
         "an existing history file is never opened for writing in place; every os.replace(tmp, target) has tmp created by mkstemp(dir=dirname("
         "target)) in this call, completely written (no failed write) and closed; only own temp files are unlinked; writes only go through "
         "temp handles. Hence every prefix of the trace (any crash point, any single failing call) leaves each file its complete old or new "
-        "version. dump additionally keeps the loaded commands as a prefix of what it stages (commands saved earlier are never lost).",
-   note="Unverified: SQLite backend (transactions / WAL), durability across power loss (no fsync), flush-at-exit / signal handling, "
+        "version. dump additionally keeps the loaded commands as a prefix of what it stages (commands saved earlier are never lost). "
+        "SQLite backend (transaction discipline): _xh_sqlite_get_conn opens the connection with NO keyword argument (python's default isolation level; any keyword is a "
+        "failed call precondition), hands it out inside exactly one `with conn:` scope and closes it on every path; xh_sqlite_erasedups (loop invariant), "
+        "xh_sqlite_delete_input_matching (loop invariant), xh_sqlite_delete_items, xh_sqlite_wipe_session and xh_sqlite_append_history issue all their statements inside "
+        "one connection scope and never commit before their last statement, on normal and exceptional paths.",
+   note="ASSUMED (the database engine): implicit transactions in the default isolation mode, commit / rollback by `with conn:`, journal "
+        "recovery after a kill. Unverified: WAL mode, durability across power loss (no fsync), flush-at-exit / signal handling, "
         "JsonHistory.clear (discards content by intent; not among the listed operations), the buffer/dedup data computations (abstracted, "
         "see C12). Atomicity of os.replace and freshness of mkstemp names are assumed (POSIX). One genuine defect found and repaired "
         "(fix: 1023136). Trusted: pyvc engine + contracts/fsmodel.py event discipline + z3.",
